@@ -35,6 +35,11 @@ IConstruct == /\ imported /\ Len(arts) < MaxArts
                    RecordConstruct(m.kind, m.how, ToSet(m.ex),
                                    [f \in Fields(m.kind) \ Late(m.kind) |-> Drawn(m.kind, m.how, ToSet(m.ex), f, draws)])
               /\ draws' = draws + Step /\ UNCHANGED <<nexp, imp>>
+\* load_from_config on an existing object runs the same code as on a new one: what is drawn "at construction" is drawn again
+IReconfigure == /\ imported /\ Len(arts) < MaxArts
+                /\ \E o \in live : \E m \in ReconfItems(o) :
+                     RecordReconfigure(o, ToSet(m.ex), [f \in Fields(m.kind) \ Late(m.kind) |-> Drawn(m.kind, m.how, ToSet(m.ex), f, draws)])
+                /\ draws' = draws + Step /\ UNCHANGED <<nexp, imp>>
 IExport == /\ nexp < MaxExp
            /\ \E a \in live :
                 RecordExport(a, [f \in Fields(Art(a).kind) |->
@@ -43,7 +48,7 @@ IExport == /\ nexp < MaxExp
                                    ELSE Drawn(Art(a).kind, Art(a).how, Art(a).ex, f, draws)])
            /\ draws' = draws + Step /\ nexp' = nexp + 1 /\ UNCHANGED imp
 IRestart == proc < MaxProc /\ imported /\ Restart /\ imp' = [s \in {} |-> 0] /\ UNCHANGED <<draws, nexp>>
-INext == IImport \/ IConstruct \/ IExport \/ IRestart
+INext == IImport \/ IConstruct \/ IReconfigure \/ IExport \/ IRestart
 ISpec == IInit /\ [][INext]_ivars
 \* the table itself, for the drift measurement of the harness
 TableRows == UNION {{[kind |-> m.kind, how |-> m.how, field |-> f, when |-> When(m.kind, m.how, f)] : f \in Fields(m.kind)} : m \in {x \in Menu : x.base}}
